@@ -153,6 +153,9 @@ class FPVectorVariable: public FPVector
   virtual Variant value() const {
     Variant v(Variant::VECTOR);
 
+    if(!m_value)
+      throw gError("FPVectorVariable::value()", "ERROR: Tried to return value of my non-initialised point_t* m_value = NULL.");
+
     for (int i = 0; i < SPACE_DIMS; ++i)
       v.vector(i) = (*m_value)[i];
 
